@@ -106,6 +106,24 @@ def install(ip):
             return [(inb, Ref(root, ()), put), ("panic", bv.M.NOT(inb), {"kind": "index-out-of-bounds", "callee": "Vec::index", "index": k})]
         return Opaque("index")
 
+    def m_get(ip_, st, fr, t, args):
+        """slice.first() / slice.get(k) on the vector of fields: Some(&field k) iff k < len"""
+        v = val_of(ip_, st, args[0])
+        name = (t["callee"]["path"] or "").split("::")[-1]
+        if name == "first":
+            k = 0
+        else:
+            k = bv.to_int(args[1].bits) if len(args) > 1 and isinstance(args[1], Int) else None
+        if not (isinstance(v, Opaque) and v.tag == "strvec") or k is None:
+            return None
+        ln = len_var(v.data)
+        inb = bv.ult(bv.const(k, 64), ln)
+        root = ("strtmp", st.count("strtmp"))
+
+        def put(s, root=root, v=v, k=k):
+            s.mem[root] = S(("field", v.data, k))
+        return [(inb, Enum(models.SOME, [Ref(root, ())]), put), (bv.M.NOT(inb), Enum(models.NONE, []))]
+
     def m_len(ip_, st, fr, t, args):
         v = val_of(ip_, st, args[0])
         if isinstance(v, Opaque) and v.tag == "strvec":
@@ -155,7 +173,17 @@ def install(ip):
     ip.models["std::str::<impl str>::split"] = m_split
     ip.models["std::iter::Iterator::collect"] = m_collect
     ip.models["<std::vec::Vec<T, A> as std::ops::Index<I>>::index"] = m_index
+    def m_vec_deref(ip_, st, fr, t, args):
+        v = val_of(ip_, st, args[0])
+        if isinstance(v, Opaque) and v.tag == "strvec":
+            return v          # &Vec<&str> -> &[&str]: the same abstract vector
+        return None
+    ip.models["<std::vec::Vec<T, A> as std::ops::Deref>::deref"] = m_vec_deref
+    ip.models["std::vec::Vec::<T, A>::as_slice"] = m_vec_deref
     ip.models["std::vec::Vec::<T, A>::len"] = m_len
+    ip.pattern_models.insert(0, (lambda p, f: (p or "").startswith("core::slice::<impl [") and (p or "").endswith("]>::len"), lambda ip_, st, fr, t, args: (m_len(ip_, st, fr, t, args) if isinstance(val_of(ip_, st, args[0]), Opaque) and val_of(ip_, st, args[0]).tag == "strvec" else None)))
+    ip.pattern_models.insert(0, (lambda p, f: (p or "").startswith("core::slice::<impl [") and (p or "").split("::")[-1] in ("first",) or
+                                 ((p or "").startswith("core::slice::<impl [") and "::get" in (p or "") and (p or "").split("::")[-1].startswith("get")), m_get))
     ip.models["core::str::traits::<impl std::cmp::PartialEq for str>::eq"] = m_streq
     ip.models["std::str::<impl str>::replace"] = m_replace
     ip.models["core::str::<impl str>::replace"] = m_replace
